@@ -712,7 +712,7 @@ func fsStat(name string, follow bool) (fs.FileInfo, error) {
 	return nil, f.missing("stat", name, p)
 }
 
-// Create/Open/OpenFile return *os.File, which cannot live in memory; the generator uses them only
+// Create returns *os.File, which cannot live in memory; the generator uses it only
 // for debug artefacts (CPU profile, graphviz dump) that the harness never enables. Inside Root they
 // are refused so that a new use cannot silently bypass the simulated disk.
 func FSCreate(name string) (*os.File, error) {
@@ -724,12 +724,8 @@ func FSCreate(name string) (*os.File, error) {
 	return os.Create(name)
 }
 
-func FSOpen(name string) (*os.File, error) {
-	if f := FS; f != nil && f.inside(abs(name)) {
-		return nil, errors.New("simfs: os.Open inside the simulated root is not supported")
-	}
-	return os.Open(name)
-}
+// FSOpen is os.Open: a read-only File (in memory inside Root, the real file outside it).
+func FSOpen(name string) (*File, error) { return FSOpenFile(name, os.O_RDONLY, 0) }
 
 // File is what the rewritten os.OpenFile returns: an in-memory file inside Root (every Write is a numbered,
 // faultable mutating operation that lands at once, as on a disk without a cache), the real file outside it
